@@ -46,6 +46,8 @@ Record repcase := MkRep {
   c_anc : option (list bool);      (* requested ancilla values (None: not given) *)
   c_cycles : Z;
   c_anc_source : anc_source;       (* which preparation code the source currently has (read by the harness) *)
+  c_direct : bool;                 (* the state container was built directly (sparse / unordered dictionaries, absent = ZERO): the
+                                      preparation instructions may be fewer and in another order, so only the executed behaviour is tied *)
   c_desc : rdesc;                  (* the description object, through its accessors *)
   c_plain : variant; c_unrolled : variant; c_flat : variant
 }.
@@ -117,7 +119,7 @@ Definition desc_model (c : repcase) : option rdesc :=
 
 Definition agree_variant (c : repcase) (D : rdesc) (v : variant) : bool :=
   let prog := decode (v_instrs v) in
-  prog_eqb prog (rep_stim D (c_init c) (anc_as_prepared (c_anc_source c) (c_init c) (anc_req c)) (ncycles c))
+  (c_direct c || prog_eqb prog (rep_stim D (c_init c) (anc_as_prepared (c_anc_source c) (c_init c) (anc_req c)) (ncycles c)))
   && match exec prog with
      | Some (r, ds, os) =>
          all_rows (v_samples v) r
